@@ -218,7 +218,3 @@ def adjoint_shared_binder_name(o, k):
                     return True
     return False
 
-
-def safesub_scalar_neginf(o, k):
-    """ops.safesub on two PYTHON scalars at (-inf, -inf) is plain subtraction (NaN); the array kernel returns -inf"""
-    return str(o.get("label", "")).startswith("('edge', 'safesub', -inf, -inf,")
